@@ -78,7 +78,8 @@ def gen(prop, stream, tier, avoid):
         if k == "export":
             fmt = rng.weighted([("json", 4), ("smesh", 2), ("vmesh", 1.5), ("txt", 1.5), ("txt2d", 1), ("csv", 1)])
             op = {"op": "export", "fmt": fmt, "objs": [rng.randrange(4) for _ in range(rng.pick([1, 1, 1, 2, 3, 4]))],
-                  "slot": rng.randrange(3), "sep": rng.pick([",", " ", "\t", ", "]), "col_sep": rng.pick([";", "|"]), "faults": []}
+                  "slot": rng.randrange(3), "sep": rng.pick([",", " ", "\t", ", "]), "col_sep": rng.pick([";", "|"]), "faults": [],
+                  "pre": rng.pick([None, None, None, "contains", "next", "break"])}
         elif k == "import":
             op = {"op": "import", "which": rng.randrange(16), "faults": []}
         elif k == "import_dir":
@@ -182,11 +183,13 @@ class World:
         self.restarts = 0
         self.failed_paths = set()
         self.last_export = None
+        self.containers = {}
         self.boot()
 
     def boot(self):
         g = shapes.G.load()
         simdisk.install(self.disk)
+        self.containers = {}
         self.live = [self.build(s) for s in self.model_objs]
 
     def build(self, spec):
@@ -533,9 +536,26 @@ def _do_export(world, ctx, op, idx, ack_then_boundary):
         targets = [base]
         d = None
     if multi:
-        target_obj = _container_for(g, first_kind)
-        for i in sel:
-            target_obj.add(world.live[i])
+        # containers live as long as the process: the same container object is exported again and again, and is also used
+        # in ordinary read-only ways between exports (membership test, peeking at the first element, a search loop with break)
+        key = (first_kind, tuple(sel))
+        target_obj = world.containers.get(key)
+        if target_obj is None:
+            target_obj = _container_for(g, first_kind)
+            for i in sel:
+                target_obj.add(world.live[i])
+            world.containers[key] = target_obj
+        pre = op.get("pre")
+        if pre == "contains":
+            _ = world.live[sel[len(sel) // 2]] in target_obj
+        elif pre == "next":
+            _ = next(iter(target_obj))
+        elif pre == "break":
+            for elem in target_obj:
+                if elem is world.live[sel[0]]:
+                    break
+        if pre:
+            ctx.probe("container_partially_traversed_before_export")
     else:
         target_obj = world.live[sel[0]]
     world.last_export = targets[0]
